@@ -102,6 +102,9 @@ class Custom(custom.Custom):
             trailing_comment: Optional[BlockComment] = None,
             indent_by: str = '    ',
     ) -> Self:
+        values = list(values)
+        # Disambiguation puts parentheses around values in place: not around a value that lives in another document.
+        internal.check_reusable(values)
         return super().from_children(
             date,
             type,
